@@ -362,17 +362,19 @@ def check_routes(d):
             ckw = {"charge": charge} if chg else {}
             for ferm_form in (["kw", "omitted"] if not fermionic else ["kw"]):
                 fkw = {"fermionic": fermionic} if ferm_form == "kw" else {}
-                f = {"route": "utils.from_dense", "charge_given": chg, "fermionic_arg": ferm_form}
-                if odd:
-                    case.must_raise("oddpos_required", f, sr.utils.from_dense, dense, sym, lab, duals, **fkw, **ckw)
-                    continue
-                with warnings.catch_warnings(record=True) as w:
-                    warnings.simplefilter("always")
-                    ok, x = case.call(f, sr.utils.from_dense, dense, sym, lab, duals, **fkw, **ckw)
-                if ok:
-                    why = mismatch(x, scls, sym, tables, charge, full, (), dtype)
-                    if why or w:
-                        case.bad("utils_from_dense", (why or f"warned: {w[0].message}")[:300], **f)
+                for form in ("list", "dict_reversed_insertion"):
+                    maps = lab if form == "list" else [{i: l[i] for i in reversed(range(len(l)))} for l in lab]
+                    f = {"route": "utils.from_dense", "charge_given": chg, "fermionic_arg": ferm_form, "maps": form}
+                    if odd:
+                        case.must_raise("oddpos_required", f, sr.utils.from_dense, dense, sym, maps, duals, **fkw, **ckw)
+                        continue
+                    with warnings.catch_warnings(record=True) as w:
+                        warnings.simplefilter("always")
+                        ok, x = case.call(f, sr.utils.from_dense, dense, sym, maps, duals, **fkw, **ckw)
+                    if ok:
+                        why = mismatch(x, scls, sym, tables, charge, full, (), dtype)
+                        if why or w:
+                            case.bad("utils_from_dense", (why or f"warned: {w[0].message}")[:300], **f)
 
     # ---- from_blocks must refuse blocks that disagree about the size of a charge
     for ax in range(nd):
@@ -596,6 +598,15 @@ def check_projection(d):
                 case.bad("projection_dense", "to_dense(from_dense(D)) is not the charge-sorted projection of D")
             elif not np.array_equal(dense_of(y), R):
                 case.bad("projection_dense", "independent densifier of from_dense(D) is not the charge-sorted projection of D")
+    if sym in SYMS_STATIC and not odd:
+        # the name-dispatch helper must agree with the class method, also for dict maps whatever their insertion order
+        with warnings.catch_warnings():
+            warnings.simplefilter("ignore")  # the helper has no invalid_sectors argument: it warns about what it projects away
+            oku, yu = case.call({"mode": "utils"}, sr.utils.from_dense, D, sym, lab_arg, duals, fermionic=fermionic, **ckw)
+        if oku:
+            why = mismatch(yu, (FERMI_CLS if fermionic else ABELIAN_CLS)[sym], sym, tables, charge, blocks, labs, dtype)
+            if why:
+                case.bad("projection_blocks_utils", why[:300])
     # the two loud modes
     try:
         with warnings.catch_warnings(record=True) as w:
@@ -730,9 +741,10 @@ def gen_cases(tier, seed):
             nd = int(r.integers(0, maxnd + 1))
             pool = CHARGE_SETS[sym]
             labels = []
+            long_axes = nd in (1, 2) and i % 2 == 0  # few charges on long axes: groups of >= 4 irregularly placed positions
             for _ in range(nd):
-                n = int(r.integers(1, maxlen + 1))
-                sub = [pool[j] for j in r.choice(len(pool), size=int(r.integers(1, min(3, len(pool)) + 1)), replace=False).tolist()]
+                n = int(r.integers(7, 13)) if long_axes else int(r.integers(1, maxlen + 1))
+                sub = [pool[j] for j in r.choice(len(pool), size=(2 if long_axes else int(r.integers(1, min(3, len(pool)) + 1))), replace=False).tolist()]
                 labels.append([sub[int(r.integers(len(sub)))] for _ in range(n)])
             duals = [bool(r.integers(2)) for _ in range(nd)]
             idx = [{"cm": [[jcharge(c), 1] for c in sorted(set(l))], "dual": dl} for l, dl in zip(labels, duals)]
